@@ -110,11 +110,38 @@ class NFA:
     def __init__(self) -> None:
         self.eps: list[list[int]] = []
         self.trans: list[list[tuple[list[tuple[int, int]], int]]] = []
+        # look-ahead edges: (target, ranges) — the NEXT consumed character must be in ranges
+        self.look: list[list[tuple[int, tuple[tuple[int, int], ...]]]] = []
 
     def new(self) -> int:
         self.eps.append([])
         self.trans.append([])
+        self.look.append([])
         return len(self.eps) - 1
+
+
+def _single_char_set(items: list) -> Optional[list[tuple[int, int]]]:
+    """ranges if `items` matches exactly one character (set, literal or branch of those)."""
+    if len(items) != 1:
+        return None
+    op, av = items[0]
+    if op is C.LITERAL:
+        return [(av, av + 1)]
+    if op is C.IN:
+        return set_ranges(av)
+    if op is C.ANY:
+        return complement([(10, 11)])
+    if op is C.BRANCH:
+        out: list[tuple[int, int]] = []
+        for alt in av[1]:
+            r = _single_char_set(list(alt))
+            if r is None:
+                return None
+            out.extend(r)
+        return normalise(out)
+    if op is C.SUBPATTERN:
+        return _single_char_set(list(av[3]))
+    return None
 
 
 def strip_anchors(tree: Any) -> list:
@@ -178,6 +205,13 @@ def build(nfa: NFA, items: list, start: int, repeat_cap: int = 40) -> int:
                     cur = build(nfa, sub, cur, repeat_cap)
                     nfa.eps[cur].append(end)
                 cur = end
+        elif op is C.ASSERT and av[0] == 1:
+            rs = _single_char_set(list(av[1]))
+            if rs is None:
+                raise Unsupported('look-ahead longer than one character')
+            nxt = nfa.new()
+            nfa.look[cur].append((nxt, tuple(rs)))
+            cur = nxt
         elif op is C.AT:
             raise Unsupported('inner anchor')
         else:
@@ -195,22 +229,44 @@ def compile_nfa(pattern: str, flags: int = 0) -> tuple[NFA, int, int]:
     return nfa, s, e
 
 
-def _closure(nfa: NFA, states: frozenset[int]) -> frozenset[int]:
+def _meet(a: Optional[tuple], b: tuple) -> tuple:
+    if a is None:
+        return b
+    out = []
+    for x0, x1 in a:
+        for y0, y1 in b:
+            lo, hi = max(x0, y0), min(x1, y1)
+            if lo < hi:
+                out.append((lo, hi))
+    return tuple(out)
+
+
+def _closure(nfa: NFA, states: frozenset) -> frozenset:
+    """states are (nfa state, pending look-ahead constraint or None)."""
     seen = set(states)
     stack = list(states)
     while stack:
-        x = stack.pop()
+        x, c = stack.pop()
         for y in nfa.eps[x]:
-            if y not in seen:
-                seen.add(y)
-                stack.append(y)
+            if (y, c) not in seen:
+                seen.add((y, c))
+                stack.append((y, c))
+        for y, rs in nfa.look[x]:
+            k = (y, _meet(c, rs))
+            if k not in seen:
+                seen.add(k)
+                stack.append(k)
     return frozenset(seen)
-
 
 def _boundaries(nfa: NFA) -> set[int]:
     b = {0, MAXU}
     for tr in nfa.trans:
         for rs, _ in tr:
+            for a, c in rs:
+                b.add(a)
+                b.add(c)
+    for lk in nfa.look:
+        for _, rs in lk:
             for a, c in rs:
                 b.add(a)
                 b.add(c)
@@ -225,17 +281,19 @@ def equivalent(p1: str, p2: str, flags1: int = 0, flags2: int = 0,
     cuts = sorted(_boundaries(n1) | _boundaries(n2))
     classes = [(a, b) for a, b in zip(cuts, cuts[1:]) if a < b]
 
-    def step(nfa: NFA, st: frozenset[int], cls: tuple[int, int]) -> frozenset[int]:
+    def step(nfa: NFA, st: frozenset, cls: tuple[int, int]) -> frozenset:
         out = set()
-        for x in st:
+        for x, c in st:
+            if c is not None and not any(a <= cls[0] and cls[1] <= b for a, b in c):
+                continue
             for rs, y in nfa.trans[x]:
                 for a, b in rs:
                     if a <= cls[0] and cls[1] <= b:
-                        out.add(y)
+                        out.add((y, None))
                         break
         return _closure(nfa, frozenset(out))
 
-    start = (_closure(n1, frozenset([s1])), _closure(n2, frozenset([s2])))
+    start = (_closure(n1, frozenset([(s1, None)])), _closure(n2, frozenset([(s2, None)])))
     seen = {start: ''}
     queue = [start]
     while queue:
@@ -243,7 +301,7 @@ def equivalent(p1: str, p2: str, flags1: int = 0, flags2: int = 0,
             raise Unsupported('state limit')
         a, b = queue.pop(0)
         w = seen[(a, b)]
-        if (e1 in a) != (e2 in b):
+        if ((e1, None) in a) != ((e2, None) in b):
             return w
         for cls in classes:
             na, nb = step(n1, a, cls), step(n2, b, cls)
@@ -260,16 +318,18 @@ def equivalent(p1: str, p2: str, flags1: int = 0, flags2: int = 0,
 def accepts(pattern: str, s: str, flags: int = 0) -> bool:
     """Full-match of s by the automaton (used by positive controls only)."""
     nfa, st, e = compile_nfa(pattern, flags)
-    cur = _closure(nfa, frozenset([st]))
+    cur = _closure(nfa, frozenset([(st, None)]))
     for ch in s:
         cp = ord(ch)
         nxt = set()
-        for x in cur:
+        for x, c in cur:
+            if c is not None and not any(a <= cp < b for a, b in c):
+                continue
             for rs, y in nfa.trans[x]:
                 if any(a <= cp < b for a, b in rs):
-                    nxt.add(y)
+                    nxt.add((y, None))
         cur = _closure(nfa, frozenset(nxt))
-    return e in cur
+    return (e, None) in cur
 
 
 _ = re
